@@ -14,7 +14,7 @@ open HappyModel.C01 HappyModel.C03
 set_option linter.unusedVariables false
 set_option linter.unusedSimpArgs false
 
-variable {σ : Type}
+variable {σ : Type} [Probe σ]
 
 /-- `schedule()` from outside preserves the engine invariant: the new event has the next creation
     index, so it sorts after every pending or delivered event with the same timestamp -/
